@@ -74,6 +74,8 @@ type WhereFrag struct {
 	// NonNil: the query fields (selector names) known to be non-nil at the call
 	// (enclosing if conditions, either polarity / operand order)
 	NonNil map[string]bool
+	// ExtraGuards: enclosing conditions that are not non-nil tests
+	ExtraGuards []string
 }
 
 func typeNameOf(info *types.Info, e ast.Expr) string {
@@ -335,21 +337,39 @@ func (m *SQLModel) collectWheres(p *core.Program) {
 				}
 				wf.NonNil = map[string]bool{}
 				for _, g := range guardsOf(fd.Body, c) {
-					op, x, y, ok := cmpParts(info, g.Cond)
-					if !ok || !isNilExpr(info, y) {
-						continue
+					// on the true side of a conjunction every conjunct holds
+					conj := []ast.Expr{g.Cond}
+					if g.True {
+						conj = nil
+						var split func(e ast.Expr)
+						split = func(e ast.Expr) {
+							if be, ok := unparen(e).(*ast.BinaryExpr); ok && be.Op == token.LAND {
+								split(be.X)
+								split(be.Y)
+								return
+							}
+							conj = append(conj, e)
+						}
+						split(g.Cond)
 					}
-					if !g.True {
-						op, _ = negTok(op)
-					}
-					if op != token.NEQ {
-						continue
-					}
-					switch v := x.(type) {
-					case *ast.SelectorExpr:
-						wf.NonNil[v.Sel.Name] = true
-					case *ast.Ident:
-						wf.NonNil[v.Name] = true
+					for _, cj := range conj {
+						op, x, y, ok := cmpParts(info, cj)
+						if ok && !g.True {
+							op, _ = negTok(op)
+						}
+						if !ok || !isNilExpr(info, y) || op != token.NEQ {
+							if t := info.TypeOf(x); ok && t != nil && types.Identical(t, types.Universe.Lookup("error").Type()) {
+								continue // err == nil on the way: not a filter on the query
+							}
+							wf.ExtraGuards = append(wf.ExtraGuards, types.ExprString(cj))
+							continue
+						}
+						switch v := x.(type) {
+						case *ast.SelectorExpr:
+							wf.NonNil[v.Sel.Name] = true
+						case *ast.Ident:
+							wf.NonNil[v.Name] = true
+						}
 					}
 				}
 				m.Wheres = append(m.Wheres, wf)
